@@ -1233,3 +1233,28 @@ package ro
 //@   track destination.* chselect chpoll chrecv.ANY
 //@   ensures [waits-once-for-cancellation-or-teardown|C14] count(chselect) == 1 && count(chpoll) == 0 && count(chrecv.ANY) == 0
 //@   ensures [cancellation-becomes-an-error-teardown-a-completion|C14] count(destination.ErrorWithContext) + count(destination.CompleteWithContext) == 1
+
+// Periodic sources: the ticker is armed with a positive period (time.NewTicker panics otherwise and the subscription
+// would end with that panic as an Error instead of emitting 0, 1, 2, ...).
+
+//@ func Interval$1
+//@   note the subscribe function of Interval: one ticker of the configured period, nothing is emitted before the first tick
+//@   props C16
+//@   binds ctx destination interval
+//@   requires interval > 0
+//@   maypanic
+//@   track destination.* call.NewTicker
+//@   ensures [one-ticker-of-the-period|C16] count(call.NewTicker) == 1 && arg(call.NewTicker, 0) == interval
+//@   ensures [nothing-is-emitted-before-the-first-tick|C16] count(destination.NextWithContext) == 0
+
+//@ func IntervalWithInitial$1
+//@   note the subscribe function of IntervalWithInitial: a timer for the initial delay and a ticker, both armed with legal periods; an initial delay of zero delivers value 0 before returning, a positive one nothing
+//@   props C16
+//@   binds ctx destination initial interval
+//@   requires initial >= 0 && interval > 0
+//@   maypanic
+//@   track destination.* call.NewTicker call.NewTimer
+//@   ensures [the-ticker-is-armed-with-a-positive-period|C16] count(call.NewTicker) == 1 && arg(call.NewTicker, 0) > 0
+//@   ensures [the-timer-is-armed-with-the-initial-delay|C16] count(call.NewTimer) == 1 && arg(call.NewTimer, 0) == initial
+//@   ensures [an-initial-delay-of-zero-emits-the-first-value-at-once|C16] initial == 0 ==> count(destination.NextWithContext) == 1 && arg(destination.NextWithContext, 0) == ctx && arg(destination.NextWithContext, 1) == 0
+//@   ensures [a-positive-initial-delay-emits-nothing-before-the-timer|C16] initial > 0 ==> count(destination.NextWithContext) == 0
